@@ -16,17 +16,62 @@ import (
 // concurrently against an in-memory store behind the cluster lock.
 // ---------------------------------------------------------------------------
 
+// vStore is one member's handle on the cluster: the key space, the store's own linearisation
+// and the distributed lock are shared by all members; the etcd session is the member's.
 type vStore struct {
 	cluster.Cluster
-	kv map[string]string
-	mu sync.Mutex // the store itself is linearisable (etcd)
-	lk *vLock
+	kv     map[string]string
+	mu     *sync.Mutex // the store itself is linearisable (etcd)
+	etcd   *vEtcdLock
+	member int
 }
 
-type vLock struct{ mu sync.Mutex }
+// vEtcdLock: the lock key in etcd. As with the real concurrency.Mutex, the key belongs to a
+// SESSION: a second mutex object of the same member acquires it at once while the member
+// holds it - only the member-local sync.Mutex inside one cluster.Mutex object keeps the
+// goroutines of a member apart. (The real cluster.mutex is the subject of verifC18_Mutex.)
+type vEtcdLock struct {
+	mu     sync.Mutex
+	held   sync.Mutex
+	holder int
+	depth  int
+}
 
-func (l *vLock) Lock() error   { l.mu.Lock(); return nil }
-func (l *vLock) Unlock() error { l.mu.Unlock(); return nil }
+type vLock struct {
+	local  sync.Mutex
+	etcd   *vEtcdLock
+	member int
+}
+
+func (l *vLock) Lock() error {
+	l.local.Lock()
+	e := l.etcd
+	e.mu.Lock()
+	if e.depth > 0 && e.holder == l.member {
+		e.depth++
+		e.mu.Unlock()
+		return nil
+	}
+	e.mu.Unlock()
+	e.held.Lock()
+	e.mu.Lock()
+	e.holder, e.depth = l.member, 1
+	e.mu.Unlock()
+	return nil
+}
+
+func (l *vLock) Unlock() error {
+	e := l.etcd
+	e.mu.Lock()
+	e.depth--
+	if e.depth == 0 {
+		e.holder = -1
+		e.held.Unlock()
+	}
+	e.mu.Unlock()
+	l.local.Unlock()
+	return nil
+}
 
 func (s *vStore) Layout() *cluster.Layout { return &cluster.Layout{} }
 func (s *vStore) Get(key string) (*string, error) {
@@ -49,7 +94,10 @@ func (s *vStore) Delete(key string) error {
 	delete(s.kv, key)
 	return nil
 }
-func (s *vStore) Mutex(name string) (cluster.Mutex, error) { return s.lk, nil }
+// every call creates a new mutex object on the member's session, as cluster.Mutex does
+func (s *vStore) Mutex(name string) (cluster.Mutex, error) {
+	return &vLock{etcd: s.etcd, member: s.member}, nil
+}
 
 func vConfigVersionKey(l *cluster.Layout) string          { return "/config/version" }
 func vConfigObjectKey(l *cluster.Layout, n string) string { return "/config/objects/" + n }
@@ -113,8 +161,9 @@ func verifC18_AdminAPI() { vAdminAPI(true) }
 func verifC18_AdminMembers() { vAdminAPI(false) }
 
 func vAdminAPI(concurrent bool) {
-	store := &vStore{kv: map[string]string{}, lk: &vLock{}}
-	members := []*Server{{cluster: store, super: &supervisor.Supervisor{}}, {cluster: store, super: &supervisor.Supervisor{}}}
+	store := &vStore{kv: map[string]string{}, mu: &sync.Mutex{}, etcd: &vEtcdLock{holder: -1}, member: 0}
+	store1 := &vStore{kv: store.kv, mu: store.mu, etcd: store.etcd, member: 1}
+	members := []*Server{{cluster: store, super: &supervisor.Supervisor{}}, {cluster: store1, super: &supervisor.Supervisor{}}}
 	v0 := int64(7)
 	store.kv["/config/version"] = "7"
 	names := []string{"a", "b"}
